@@ -319,6 +319,18 @@ func genHand(seed int64, allow map[string]bool) *Scenario {
 			hp.WithholdAns = []string{"ready1", "ready2", "ante", "blinds", "ready3"}[r.Intn(5)]
 			hp.WithholdMs = 250
 		}
+		if r.Intn(4) == 0 {
+			// answers that arrive after the hand has produced a collection request but before the updater has published
+			// it (the producing goroutine is parked at game.queue): refused, or accepted AND counted
+			switch r.Intn(3) {
+			case 0:
+				hp.Inj = append(hp.Inj, Inj{At: "g:game.queue:BlindsRequested", Ops: []Op{{Op: "act", Who: "bb", Kind: "pay", Amt: 2}}})
+			case 1:
+				hp.Inj = append(hp.Inj, Inj{At: "g:game.queue:BlindsRequested", Ops: []Op{{Op: "act", Who: "sb", Kind: "pay", Amt: 1}, {Op: "act", Who: "bb", Kind: "pay", Amt: 2}, {Op: "act", Who: "dealer", Kind: "pay", Amt: 2}}})
+			default:
+				hp.Inj = append(hp.Inj, Inj{At: "g:game.queue:AnteRequested", Ops: []Op{{Op: "act", Who: "bb", Kind: "pay", Amt: 1}, {Op: "act", Who: "dealer", Kind: "pay", Amt: 1}}})
+			}
+		}
 		if r.Intn(3) == 0 {
 			perm := r.Perm(10)
 			hp.Strength = perm
